@@ -412,7 +412,20 @@ func (w *worldA) flushB() *core.Violation {
 		}
 		return nil
 	}
-	return w.b.Expect("authenticated operator B", exp, "operatorB")
+	v := w.b.Expect("authenticated operator B", exp, "operatorB")
+	if v != nil {
+		var recs []string
+		w.fx.TS.Clients.Range(func(k, val any) bool {
+			recs = append(recs, fmt.Sprintf("%v", k))
+			return true
+		})
+		var ags []string
+		for _, a := range w.fx.TS.Agents.Agents {
+			ags = append(ags, a.NameID)
+		}
+		v.Msg += fmt.Sprintf("\n[diagnostics: client records %v, authenticated %v, live handlers %d, sessions %v, B=%s fresh-teamserver=%v]", recs, w.fx.Snapshot().AuthClients, w.fx.LiveHandlers(), ags, w.b.Local, w.fx.Fresh)
+	}
+	return v
 }
 
 func followPkg(f Follow, w *worldA, user string) packager.Package {
@@ -516,6 +529,12 @@ func runA(raw json.RawMessage) *core.Violation {
 			exp = append(exp, "!newsession/"+fmt.Sprintf("%08x", id)+"/"+wsx.AgentKeyB64(id))
 		}
 		if v := b.Expect("operator B (setup)", exp, "setup"); v != nil {
+			return v
+		}
+		// one-shot chat: its echo proves B's handler has left the replay loop (a session
+		// registered while that loop runs would be announced to B twice)
+		b.SendJSON(wsx.BarrierPkg(w.bUser, "barrier"))
+		if v := b.Expect("operator B (setup barrier)", []string{"!chat/" + w.bUser + "/barrier"}, "setup"); v != nil {
 			return v
 		}
 		w.retained = append(w.retained, "newuser/"+w.bUser)
